@@ -318,10 +318,10 @@ Proof.
 Qed.
 
 Lemma printf_length_bound p x :
-  valid_binary prec emax x = true -> (p <= 35)%nat ->
+  valid_binary prec emax x = true ->
   (printf_bytes p x <= 312 + p)%nat.
 Proof.
-  intros Hv Hp. unfold printf_bytes, printf_f.
+  intros Hv. unfold printf_bytes, printf_f.
   destruct x as [s| s| |s m e]; cbn [length]; try lia.
   - rewrite fixed_point_length. change (digits_of 0) with [c_0]. cbn [length]. destruct s; lia.
   - rewrite fixed_point_length. cbn [valid_binary] in Hv.
@@ -340,15 +340,59 @@ Theorem printf_fits_lemma : forall x p,
 Proof.
   intros x p Hv Hin.
   pose proof (proj1 (Forall_forall _ _) precisions_le_35 p Hin) as Hp. cbv beta in Hp.
-  pose proof (printf_length_bound p x Hv Hp).
+  pose proof (printf_length_bound p x Hv).
   assert (312 + 35 <= printf_buffer_bytes)%nat by (unfold printf_buffer_bytes; lia).
   lia.
 Qed.
 
-(* the bound is tight: DBL_MAX at the last precision needs 347 bytes *)
+(* the "%.*f" loop of DoubleToCharacters never goes beyond MAX_FRACTION_DIGITS *)
+Lemma frexp_exponent_ge x : valid_binary prec emax x = true -> -1073 <= frexp_exponent x.
+Proof.
+  destruct x as [s|s| |s m e]; cbn [frexp_exponent]; try lia.
+  cbn [valid_binary]. unfold bounded, canonical_mantissa, fexp, emin, prec, emax.
+  rewrite andb_true_iff. intros [Hc _]. apply Zeq_bool_eq in Hc. lia.
+Qed.
+
+Lemma ext_start_bounds x : valid_binary prec emax x = true ->
+  (printf_last_table_precision < ext_start x <= printf_max_precision)%nat.
+Proof.
+  intros Hv. pose proof (frexp_exponent_ge x Hv) as He. unfold ext_start.
+  unfold printf_last_table_precision, printf_start_num, printf_start_den, printf_max_precision.
+  assert (Z.quot ((- frexp_exponent x - 1) * 3) 10 <= Z.quot (1072 * 3) 10)
+    by (apply Z.quot_le_mono; lia).
+  change (Z.quot (1072 * 3) 10) with 321 in H. lia.
+Qed.
+
+Lemma ext_precisions_bounds x p : valid_binary prec emax x = true -> In p (ext_precisions x) ->
+  (printf_last_table_precision < p <= printf_max_precision)%nat.
+Proof.
+  intros Hv Hin. pose proof (ext_start_bounds x Hv) as Hs. unfold ext_precisions in Hin.
+  cbn [In] in Hin. destruct Hin as [<-|Hin]; [exact Hs|].
+  apply in_seq in Hin. lia.
+Qed.
+
+Theorem printf_fits_ext_lemma : forall x p,
+  valid_binary prec emax x = true -> In p printf_precisions \/ In p (ext_precisions x) ->
+  (printf_bytes p x <= printf_buffer_bytes)%nat.
+Proof.
+  intros x p Hv [Hin|Hin]; [apply printf_fits_lemma; assumption|].
+  pose proof (ext_precisions_bounds x p Hv Hin) as Hp.
+  pose proof (printf_length_bound p x Hv).
+  unfold printf_buffer_bytes, printf_max_precision in *. lia.
+Qed.
+
+(* the bound of printf_length_bound is attained: -DBL_MAX at the table's last precision needs 347 bytes
+   (and 312 + 1074 = 1386 = the whole buffer at MAX_FRACTION_DIGITS, a precision the loop only reaches
+   for values below 2^-64, which need 1 + 1 + 1 + 1074 + 1 bytes) *)
 Example printf_fits_tight :
   printf_bytes 35 (of_bits 0xFFEFFFFFFFFFFFFF) = 347%nat /\
   valid_binary prec emax (of_bits 0xFFEFFFFFFFFFFFFF) = true.
+Proof. vm_compute. auto. Qed.
+
+(* the smallest subnormal: the extended loop starts at precision 322 and ends at 324 *)
+Example ext_loop_min_subnormal :
+  ext_start (of_bits 1) = 322%nat /\ length (double_to_characters (of_bits 1)) = 326%nat /\
+  printf_bytes 1074 (of_bits 0x8000000000000001) = 1078%nat.
 Proof. vm_compute. auto. Qed.
 
 (** * floor, ceiling, round against their definitions on the rational value *)
